@@ -78,8 +78,13 @@ INDEX = {
  "C24": {"package": ".", "harnesses": [
    {"name": "VerifH24Translate", "common": {"max_depth": 3000}, "quick": {"bounds": {"keys": 2, "keylen": 1, "smalltable": 1}}, "thorough": {"bounds": {"keys": 3, "keylen": 2, "smalltable": 1}}},
  ]},
+ "C26": {"package": "./pql", "harnesses": [
+   {"name": "VerifH26ParseConcrete", "quick": {"bounds": {}}},
+   {"name": "VerifH26StringLiteral", "common": {"max_depth": 3000}, "quick": {"bounds": {"len": 2}}, "thorough": {"bounds": {"len": 3}}},
+   {"name": "VerifH26UnicodeLiteral", "common": {"max_depth": 3000}, "quick": {"bounds": {}}},
+ ]},
  "C27": {"package": "./encoding/proto", "harnesses": [
-   {"name": "VerifH27Messages", "common": {"max_depth": 3000}, "quick": {"bounds": {"strlen": 1, "slice": 2, "types": 12}}, "thorough": {"bounds": {"strlen": 2, "slice": 2, "types": 12}}},
+   {"name": "VerifH27Messages", "common": {"max_depth": 3000}, "quick": {"bounds": {"strlen": 1, "slice": 1, "types": 12, "intclasses": 2}}, "thorough": {"bounds": {"strlen": 1, "slice": 2, "types": 12, "intclasses": 3}}},
    {"name": "VerifH27Garbage", "common": {"max_depth": 3000}, "quick": {"bounds": {"len": 4, "targets": 14}}, "thorough": {"bounds": {"len": 6, "targets": 14}}},
  ]},
 }
